@@ -194,6 +194,10 @@ def derived(c, rnd):
     if c["layout"] in ("long", "short", "elan"):
         yield {"op": "parse", "text": file_text(c), "iei": c["iei"]}
     yield from unit_cases(rnd, 2)
+    if rnd.random() < 0.2:
+        pool = ["a", "a", "a_2", "b", "a_3", "b_2"]
+        names = [rnd.choice(pool) for _ in range(rnd.randint(1, 5))]
+        yield {"op": "dupnames", "names": names, "mode": rnd.choice(["rename", "error"])}
 
 
 def gen_main(rnd, tier):
